@@ -29,6 +29,7 @@ type specCtx struct {
 	capt    map[string]tv      // addresses of captured variables (closure contracts)
 	phiNext map[ssa.Value]Term // at a latch: the value each header phi takes on this back edge
 	inIter  bool
+	inOld   bool
 	iterHdr *ssa.BasicBlock
 	local   bool // resolve names through the SSA of fr.fn
 	pkg     *types.Package
@@ -393,6 +394,15 @@ func (c *specCtx) localName(name string) (tv, bool) {
 			isParam = true
 		}
 	}
+	if c.inOld && isParam {
+		// inside old(): a parameter name is its entry value (its cell, if it is
+		// captured by a closure, has not been initialised in the entry state)
+		for _, p := range fn.Params {
+			if p.Name() == name {
+				return get(p, false)
+			}
+		}
+	}
 	for _, b := range fn.Blocks {
 		if c.blk == nil && isParam {
 			break
@@ -662,7 +672,9 @@ func (c *specCtx) callExpr(x *ast.CallExpr) (tv, error) {
 		if c.old == nil {
 			return tv{}, fmt.Errorf("old() not available here")
 		}
-		return c.withState(c.old).tr(args[0])
+		oc := c.withState(c.old)
+		oc.inOld = true
+		return oc.tr(args[0])
 	case "iter":
 		if c.iter == nil {
 			return tv{}, fmt.Errorf("iter() not available here")
